@@ -415,9 +415,13 @@ func (st *State) commit() (cause string, ok bool) {
 			f.Accept, f.TwoReadings = f.canon(), false
 		case f.Changed && !f.Work.Equal(f.Disk):
 			f.Accept, f.TwoReadings = f.canon(), false
+		case !f.Changed:
+			// addressed only by statements that affected no record: the transaction never changed the file,
+			// which must stay byte-identical ("Files the transaction never changed stay byte-identical")
+			f.TwoReadings = false
 		default:
 			f.TwoReadings = true
-			// addressed, but the table is what it was: both the old bytes and a rewrite hold the state
+			// changed and changed back: both the old bytes and a rewrite hold the state
 			f.Accept = union(f.Accept, f.canon())
 		}
 		f.DiskExists, f.Disk = f.WorkExists, f.Work.Clone()
